@@ -587,6 +587,15 @@ func CheckC10(p *Pkg, e *Env, r *res.Result) {
 		r.Inconclusive = append(r.Inconclusive, p.Name+": "+err.Error())
 		return
 	}
+	// raw (non-JSON) response bodies are handed to the caller as a stream: half of those
+	// cases travel over loopback through a real *http.Client, where a body stays readable
+	// only as long as nobody has closed it
+	srv := httptest.NewServer(in.H)
+	defer srv.Close()
+	hc := srv.Client()
+	// (the response under test is the one the handler wrote, not where a redirect leads)
+	hc.CheckRedirect = func(*http.Request, []*http.Request) error { return http.ErrUseLastResponse }
+	realClient, _ := NewClient(p, srv.URL+escapedBase(p.BasePath), func(req *http.Request) (*http.Response, error) { return hc.Do(req) })
 	n := 100 * len(targets)
 	if !e.Quick() {
 		n = 300 * len(targets)
@@ -639,7 +648,12 @@ func CheckC10(p *Pkg, e *Env, r *res.Result) {
 			}
 			forced = nil
 			in.Reset()
-			resp, cerr, pan := CallClient(client, tg.op, params)
+			cl := client
+			if code, _ := strconv.Atoi(tg.info.Doc.Status); raw != nil && realClient.IsValid() && tg.op.Method != "HEAD" && (tg.info.Doc.Status == "default" || code >= 200 && code != 204 && code != 304) && rapid.Bool().Draw(t, "over_loopback") {
+				cl = realClient
+				r.Label("transport:loopback-real-http-client")
+			}
+			resp, cerr, pan := CallClient(cl, tg.op, params)
 			if pan != "" {
 				fail("client-panic", pan)
 				return
